@@ -461,6 +461,9 @@ class BuiltinsMixin:
     def int_to_str(self, v):
         """str(n): non-negative via int.to.str, negative = '-' + str(-n)"""
         e = v.e
+        if not self.spec:
+            # fact of the decimal rendering the string solvers do not derive by themselves: only ASCII characters
+            self.run.assume(z3.And(self.all_codes_below(z3.IntToStr(e), 128), self.all_codes_below(z3.IntToStr(-e), 128)))
         return SStr(z3.If(e >= 0, z3.IntToStr(e), z3.Concat(z3.StringVal("-"), z3.IntToStr(-e))), "str")
 
     def make_str(self, v="", *enc):
